@@ -16,6 +16,9 @@
 #include <tbox/alarm/workday_alarm.h>
 #include <tbox/alarm/workday_calendar.h>
 #include <tbox/alarm/cron_alarm.h>
+#include <tbox/alarm/3rd-party/ccronexpr.h>
+#include <cstring>
+#include <cstdlib>
 
 using namespace tbox;
 using namespace tbox::alarm;
@@ -39,7 +42,9 @@ struct WorkdayProbe : WorkdayAlarm {
 };
 
 static const int64_t kWall0 = 1700000000000LL;
-static const uint64_t kMaxWallMs = 4294967295999ULL;
+static const uint64_t kMaxWallMs = 8589934591999ULL;   // 2^33 s - 1 ms: tv_sec beyond 2^32 is truncated into the alarm's uint32_t
+static const int64_t kTzMax = 35791394;                 // largest minutes value whose *60 fits an int (setTimezone)
+static const int64_t kSodMax = 2147483647;
 static const size_t kSlots = 4;
 struct Slot { char kind = 0; WeeklyProbe *wk = nullptr; OneshotProbe *os = nullptr; WorkdayProbe *wd = nullptr; CronProbe *cr = nullptr;
               Alarm *a() const { return kind == 'k' ? (Alarm*)wk : kind == 'o' ? (Alarm*)os : kind == 'd' ? (Alarm*)wd : kind == 'c' ? (Alarm*)cr : nullptr; } };
@@ -63,7 +68,7 @@ static std::string state_line(int ret) {
 }
 
 // callback scripts: API calls made from inside the callback
-struct Act { std::string kind; size_t j = 0; uint64_t n = 0; int64_t iv = 0; std::string mask; bool wd = false; std::map<int, bool> sp; };
+struct Act { std::string kind; size_t j = 0; uint64_t n = 0; int64_t iv = 0; std::string mask; bool wd = false; std::map<int, bool> sp; std::string expr; };
 static std::vector<Act> scripts[kSlots];
 static int pass_callbacks = 0;
 static void run_act(const Act &a);
@@ -124,6 +129,7 @@ static void run_act(const Act &a) {
     else if (a.kind == "cl") { al->cleanup(); al->setCallback(make_cb(a.j)); st[a.j] = 'N'; }
     else if (a.kind == "in") do_init(a.j, a.iv, a.mask, a.wd);
     else if (a.kind == "tz") al->setTimezone((int)a.iv);
+    else if (a.kind == "ic") { if (slots[a.j].kind == 'c' && slots[a.j].cr->initialize(a.expr)) st[a.j] = 'I'; }
 }
 
 static bool slot_of(const std::string &w, size_t &i) { uint64_t v; if (!vh::to_u64(w, v) || v >= kSlots) return false; i = v; return true; }
@@ -133,7 +139,7 @@ static bool bounded(const std::string &w, uint64_t hi, uint64_t &v) {
 }
 static bool int_of(const std::string &w, int64_t lo, int64_t hi, int64_t &v) {
     uint64_t u; bool neg = !w.empty() && w[0] == '-';
-    if (!bounded(neg ? w.substr(1) : w, 1000000000ULL, u)) return false;
+    if (!bounded(neg ? w.substr(1) : w, 2147483648ULL, u)) return false;
     v = neg ? -(int64_t)u : (int64_t)u;
     return v >= lo && v <= hi;
 }
@@ -156,6 +162,14 @@ static bool specials_of(const std::string &w, std::map<int, bool> &m, char sep =
         if (!bounded(item.substr(0, p), 100000, d) || !bool_of(item.substr(p + 1), b)) return false;
         m.insert(std::make_pair((int)d, b));      // first entry of a day wins
     }
+    return true;
+}
+// raw expression bytes of a cx / initx op: 1..300 bytes, each 1..127
+static bool expr_of(const std::string &w, std::string &out) {
+    std::vector<uint8_t> b;
+    if (!vh::unhex(w, b) || b.empty() || b.size() > 300) return false;
+    out.clear();
+    for (uint8_t c : b) { if (c == 0 || c >= 128) return false; out.push_back((char)c); }
     return true;
 }
 static std::vector<std::string> split(const std::string &w, char sep) {   // keeps empty pieces, like String.splitOn
@@ -181,11 +195,15 @@ static bool script_of(const std::string &w, size_t self, std::vector<Act> &out) 
         else if (it.compare(0, 2, "cl") == 0 && slot_of(tail(2), a.j)) a.kind = "cl";
         else if (it.compare(0, 2, "tz") == 0) {          // tz<j>:<minutes>
             auto p = split(tail(2), ':');
-            if (p.size() != 2 || !slot_of(p[0], a.j) || !int_of(p[1], -1440, 1440, a.iv)) return false;
+            if (p.size() != 2 || !slot_of(p[0], a.j) || !int_of(p[1], -kTzMax, kTzMax, a.iv)) return false;
             a.kind = "tz";
+        } else if (it.compare(0, 2, "ic") == 0) {        // ic<j>:<hex expression>
+            auto p = split(tail(2), ':');
+            if (p.size() != 2 || !slot_of(p[0], a.j) || !expr_of(p[1], a.expr)) return false;
+            a.kind = "ic";
         } else if (it.compare(0, 2, "in") == 0) {        // in<j>:<sod>:<mask|->:<wd>
             auto p = split(tail(2), ':');
-            if (p.size() != 4 || !slot_of(p[0], a.j) || !int_of(p[1], -200000, 200000, a.iv) || !mask_of(p[2], a.mask) || !bool_of(p[3], a.wd)) return false;
+            if (p.size() != 4 || !slot_of(p[0], a.j) || !int_of(p[1], -kSodMax - 1, kSodMax, a.iv) || !mask_of(p[2], a.mask) || !bool_of(p[3], a.wd)) return false;
             a.kind = "in";
         }
         else return false;
@@ -214,6 +232,7 @@ static bool cron_field(const std::string &w) {
     }
     return true;
 }
+static uint64_t le_bits(const uint8_t *p, size_t n) { uint64_t v = 0; for (size_t i = 0; i < n; ++i) v |= (uint64_t)p[i] << (8 * i); return v; }
 static std::string show_next(bool ok, uint32_t r) { return ok ? "P next=" + std::to_string(r) : std::string("P next=none"); }
 
 int main(int argc, char **argv) {
@@ -234,17 +253,17 @@ int main(int argc, char **argv) {
         if (w[0] == "case") { reset_all(); std::cout << line << "\n"; return true; }
         const std::string &op = w[0];
         size_t i = 0; uint64_t sod = 0, t = 0, n = 0; int64_t iv = 0; std::string m; bool b = false; std::map<int, bool> sp;
-        if (op == "wk" && w.size() == 4 && bounded(w[1], 200000, sod) && mask_of(w[2], m) && bounded(w[3], 4294967295ULL, t)) {
+        if (op == "wk" && w.size() == 4 && bounded(w[1], 2147483647ULL, sod) && mask_of(w[2], m) && bounded(w[3], 4294967295ULL, t)) {
             WeeklyProbe p(loop);
             if (!p.initialize((int)sod, m)) { std::cout << "P init=0\n"; return true; }
             uint32_t r = 0; bool ok = p.calc((uint32_t)t, r);
             std::cout << show_next(ok, r) << "\n";
-        } else if (op == "os" && w.size() == 3 && bounded(w[1], 200000, sod) && bounded(w[2], 4294967295ULL, t)) {
+        } else if (op == "os" && w.size() == 3 && bounded(w[1], 2147483647ULL, sod) && bounded(w[2], 4294967295ULL, t)) {
             OneshotProbe p(loop);
             if (!p.initialize((int)sod)) { std::cout << "P init=0\n"; return true; }
             uint32_t r = 0; bool ok = p.calc((uint32_t)t, r);
             std::cout << show_next(ok, r) << "\n";
-        } else if (op == "wd" && w.size() == 6 && bounded(w[1], 200000, sod) && bool_of(w[2], b) && bounded(w[3], 255, n) &&
+        } else if (op == "wd" && w.size() == 6 && bounded(w[1], 2147483647ULL, sod) && bool_of(w[2], b) && bounded(w[3], 255, n) &&
                    specials_of(w[4], sp) && bounded(w[5], 4294967295ULL, t)) {
             WorkdayCalendar c; c.updateWeekMask((uint8_t)n); c.updateSpecialDays(sp);
             WorkdayProbe p(loop);
@@ -273,6 +292,29 @@ int main(int argc, char **argv) {
                 }
             }
             vt::set_wall_ms(saved);
+        } else if (op == "cx" && w.size() == 4 && bounded(w[1], 7, n) && expr_of(w[2], m) && bounded(w[3], 4294967295ULL, t)) {
+            // cron_parse_expr called directly on a heap block of exactly the string's size whose start is shifted by k bytes
+            // (every alignment 0..7 of the start pointer; the terminating NUL is the last byte before the ASan redzone)
+            size_t k = (size_t)n;
+            char *blk = (char*)malloc(k + m.size() + 1);
+            memset(blk, ' ', k); memcpy(blk + k, m.data(), m.size()); blk[k + m.size()] = 0;
+            cron_expr ex; memset(&ex, 0, sizeof(ex));
+            const char *err = nullptr;
+            cron_parse_expr(blk + k, &ex, &err);
+            CronProbe p(loop);
+            bool ok = p.initialize(std::string(blk + k));
+            free(blk);
+            if (ok != (err == nullptr)) { std::cout << "P init-disagrees parse=" << (err ? err : "ok") << " initialize=" << ok << "\n"; return true; }
+            if (!ok) { std::cout << "P init=0\n"; return true; }
+            std::cout << "P init=1\n";
+            std::cout << "M bits s=" << le_bits(ex.seconds, 8) << " m=" << le_bits(ex.minutes, 8) << " h=" << le_bits(ex.hours, 3)
+                      << " dow=" << le_bits(ex.days_of_week, 1) << " dom=" << le_bits(ex.days_of_month, 4) << " mon=" << le_bits(ex.months, 2) << "\n";
+            uint32_t r = 0; bool found = p.calc((uint32_t)t, r);
+            std::cout << show_next(found, r) << "\n";
+        } else if (op == "initx" && w.size() == 3 && slot_of(w[1], i) && expr_of(w[2], m) && slots[i].a()) {
+            bool ok = slots[i].kind == 'c' && slots[i].cr->initialize(m);
+            if (ok) st[i] = 'I';
+            std::cout << state_line(ok) << "\n";
         } else if (op == "new" && (w.size() == 3 || w.size() == 4) && slot_of(w[1], i) && (w[2] == "wk" || w[2] == "os" || w[2] == "wd" || w[2] == "cr") && !slots[i].a() &&
                    (w.size() == 3 || script_of(w[3], i, scripts[i]))) {
             if (w.size() == 3) scripts[i].clear();
@@ -284,7 +326,7 @@ int main(int argc, char **argv) {
             st[i] = 'N';
             s.a()->setCallback(make_cb(i));
             std::cout << state_line(1) << "\n";
-        } else if (op == "init" && w.size() == 5 && slot_of(w[1], i) && int_of(w[2], -200000, 200000, iv) &&
+        } else if (op == "init" && w.size() == 5 && slot_of(w[1], i) && int_of(w[2], -kSodMax - 1, kSodMax, iv) &&
                    mask_of(w[3], m) && bool_of(w[4], b) && slots[i].a()) {
             bool ok = do_init(i, iv, m, b);
             std::cout << state_line(ok) << "\n";
@@ -293,7 +335,7 @@ int main(int argc, char **argv) {
             bool ok = slots[i].kind == 'c' && slots[i].cr->initialize(w[2] + " " + w[3] + " " + w[4] + " " + w[5] + " " + w[6] + " " + w[7]);
             if (ok) st[i] = 'I';
             std::cout << state_line(ok) << "\n";
-        } else if (op == "tz" && w.size() == 3 && slot_of(w[1], i) && int_of(w[2], -1440, 1440, iv) && slots[i].a()) {
+        } else if (op == "tz" && w.size() == 3 && slot_of(w[1], i) && int_of(w[2], -kTzMax, kTzMax, iv) && slots[i].a()) {
             slots[i].a()->setTimezone((int)iv);
             std::cout << state_line(1) << "\n";
         } else if (op == "en" && w.size() == 2 && slot_of(w[1], i) && slots[i].a()) {
